@@ -27,6 +27,7 @@ type envState struct {
 	onQuiet   Value
 	taskGates []string
 	curTask   *task
+	parkTasks bool
 	seq       int
 }
 
@@ -37,6 +38,8 @@ type task struct {
 	cc    *ssa.CallCommon
 	spawnSeq int
 }
+
+type taskParked struct{}
 
 type inflightOp struct{} // kept for ChanObj compatibility
 
@@ -106,6 +109,13 @@ func (p *Path) chanPut(ch *ChanObj, v Value) {
 	if e := p.envst(); e.inTask > 0 && len(e.taskGates) > 0 {
 		ch.gateLog = append(ch.gateLog, e.taskGates...)
 		e.taskGates = nil
+	}
+	if ch.sinkFn != nil {
+		arg := v
+		if _, isIface := v.(IfaceV); !isIface {
+			arg = IfaceV{t: ch.et, v: v}
+		}
+		p.callValue(ch.sinkFn, []Value{arg}, nil, nil)
 	}
 	if ch.sink || (ch.envRecv && len(ch.buf) >= ch.cap) {
 		return
@@ -190,6 +200,15 @@ func (p *Path) runTask(i int) {
 	e.curTask = t
 	e.taskGates = nil
 	defer func() {
+		if r := recover(); r != nil {
+			if _, ok := r.(taskParked); !ok {
+				e.inTask--
+				e.curTask = savedTask
+				e.taskGates = saved
+				panic(r)
+			}
+			// the goroutine waits forever in this bounded model: it has no further effect
+		}
 		e.inTask--
 		e.curTask = savedTask
 		if len(e.taskGates) > 0 {
@@ -292,6 +311,9 @@ func (p *Path) selectOp(fr *Frame, x *ssa.Select) Value {
 		}
 		if len(ready)+ntasks == 0 {
 			if e.inTask > 0 {
+				if e.parkTasks {
+					panic(taskParked{})
+				}
 				p.unsup("a spawned goroutine would block in select (not modelled)")
 			}
 			p.quiescent("nothing can happen any more")
@@ -416,6 +438,22 @@ func init() {
 			}
 		}
 		return mkInt64(int64(n))
+	})
+	reg("verif_EnvSinkFn", func(p *Path, fn *ssa.Function, a []Value) Value {
+		cv := a[0].(IfaceV).v.(ChanV)
+		cv.ch.sink = true
+		cv.ch.label = p.strArg(a[1])
+		cv.ch.sinkFn = a[2]
+		return nil
+	})
+	reg("verif_EnvLimit", func(p *Path, fn *ssa.Function, a []Value) Value {
+		cv := a[0].(IfaceV).v.(ChanV)
+		cv.ch.envLimit = cv.ch.envCount + p.concreteInt(a[1], "limit")
+		return nil
+	})
+	reg("verif_ParkBlockedTasks", func(p *Path, fn *ssa.Function, a []Value) Value {
+		p.envst().parkTasks = a[0].(*Term).bval
+		return nil
 	})
 	reg("verif_ChanLog", func(p *Path, fn *ssa.Function, a []Value) Value {
 		// number of values ever sent on the channel
